@@ -129,6 +129,7 @@ ENGINES = {
         "sources": ["sim/par/par_main.cpp", "sim/par/sched.cpp", "sim/core/layout.cpp"],
         "libs": ["-lsmt", "-ljson"],
         "libs_by_config": {"par": ["-lconcurrent"]},
+        "cxxflags": ["-fno-access-control"],  # the structural oracle reads lra_theory's tableau and watch lists
     },
     "plan": {
         "sources": ["sim/plan/plan_main.cpp", "sim/core/layout.cpp"],
